@@ -309,13 +309,32 @@ def to_string(value: JSValue) -> str:
     if isinstance(value, str):
         return value
     if isinstance(value, JSArray):
-        # Array.prototype.toString: join with commas (null/undefined elements are empty)
-        return ",".join(
-            "" if item is UNDEFINED or item is NULL else to_string(item)
-            for item in value._elements
-        )
+        # Array.prototype.toString: join with commas
+        return join_array(value, ",")
     # TODO: Handle objects with toString
     return "[object Object]"
+
+
+_arrays_being_joined: set = set()
+
+
+def join_array(array: "JSArray", separator: str) -> str:
+    """Array.prototype.join (null/undefined elements are empty). An array that contains
+    itself, directly or through other arrays, is empty where it comes round again."""
+    if id(array) in _arrays_being_joined:
+        return ""
+    _arrays_being_joined.add(id(array))
+    try:
+        return separator.join(
+            "" if item is UNDEFINED or item is NULL else to_string(item)
+            for item in array._elements
+        )
+    except RecursionError:
+        from .errors import JSRangeError
+
+        raise JSRangeError("Array is nested too deeply to convert to a string")
+    finally:
+        _arrays_being_joined.discard(id(array))
 
 
 class JSObject:
